@@ -48,6 +48,14 @@ pub enum COp {
         dt: u8,
         mtu: u16,
     },
+    /// a 300-byte packet (request/response or datagram traffic)
+    SentSmall,
+    /// acknowledgement of one 300-byte packet; `in_flight` bytes remain afterwards
+    AckSmall {
+        in_flight: u16,
+    },
+    /// almost everything in flight is lost at once
+    CongBurst,
 }
 
 pub trait Kind: Send + Sync + 'static {
@@ -121,6 +129,10 @@ pub enum Alphabet {
     Reduced,
     /// Time step 100 ms x the same 9 calls
     Minimal,
+    /// The search starts from a controller that was driven through 60 rounds of full-window
+    /// traffic and one loss (past start-up, in recovery); calls at 100 ms steps: full-size and
+    /// 300-byte packets sent / acknowledged, single and burst losses
+    Recovery,
 }
 
 impl Alphabet {
@@ -129,6 +141,7 @@ impl Alphabet {
             Self::Full => "full",
             Self::Reduced => "reduced",
             Self::Minimal => "minimal",
+            Self::Recovery => "recovery",
         }
     }
 }
@@ -162,7 +175,7 @@ impl<K: Kind> Sys for CcSys<K> {
     const NAME: &'static str = K::NAME;
 
     fn new(cfg: &CCfg) -> Self {
-        Self {
+        let mut s = Self {
             alphabet: cfg.alphabet,
             real: K::build(Self::at(0), cfg.seed),
             rtt: rtt_estimator(
@@ -173,11 +186,51 @@ impl<K: Kind> Sys for CcSys<K> {
             next_pn: 0,
             mtu: 1200,
             _k: PhantomData,
+        };
+        if cfg.alphabet == Alphabet::Recovery {
+            // warm-up (not part of the searched history): steady full-window traffic, then one loss
+            for _ in 0..60 {
+                for _ in 0..10 {
+                    let _ = s.apply(&COp::Sent { dt: 0 });
+                }
+                let _ = s.apply(&COp::Ack {
+                    dt: 1,
+                    app_limited: false,
+                    in_flight_big: true,
+                });
+            }
+            let _ = s.apply(&COp::Cong {
+                dt: 1,
+                persistent: false,
+                ecn: false,
+                lost: 1,
+            });
         }
+        s
     }
 
     fn ops(&self) -> Vec<COp> {
         let mut v = Vec::new();
+        if self.alphabet == Alphabet::Recovery {
+            return vec![
+                COp::SentSmall,
+                COp::AckSmall { in_flight: 600 },
+                COp::AckSmall { in_flight: 0 },
+                COp::CongBurst,
+                COp::Sent { dt: 1 },
+                COp::Ack {
+                    dt: 1,
+                    app_limited: false,
+                    in_flight_big: true,
+                },
+                COp::Cong {
+                    dt: 1,
+                    persistent: false,
+                    ecn: false,
+                    lost: 1,
+                },
+            ];
+        }
         if self.alphabet != Alphabet::Full {
             let dts: &[u8] = if self.alphabet == Alphabet::Reduced {
                 &[1, 2]
@@ -257,6 +310,8 @@ impl<K: Kind> Sys for CcSys<K> {
             | COp::Cong { dt, .. }
             | COp::Spurious { dt }
             | COp::Mtu { dt, .. } => dt,
+            COp::SentSmall => 0,
+            COp::AckSmall { .. } | COp::CongBurst => 1,
         };
         self.now_ms += DT_MS[dt as usize];
         let now = Self::at(self.now_ms);
@@ -288,6 +343,19 @@ impl<K: Kind> Sys for CcSys<K> {
             } => {
                 self.real
                     .on_congestion_event(now, sent, persistent, ecn, LOST[lost as usize]);
+            }
+            COp::SentSmall => {
+                self.real.on_sent(now, 300, self.next_pn);
+                self.next_pn += 1;
+            }
+            COp::AckSmall { in_flight } => {
+                self.real.on_ack(now, sent, 300, false, &self.rtt);
+                let largest = self.next_pn.checked_sub(1);
+                self.real.on_end_acks(now, in_flight as u64, false, largest);
+            }
+            COp::CongBurst => {
+                self.real
+                    .on_congestion_event(now, sent, false, false, 11_000);
             }
             COp::Spurious { .. } => self.real.on_spurious_congestion_event(),
             COp::Mtu { mtu, .. } => {
@@ -340,6 +408,7 @@ impl<K: Kind> Sys for CcSys<K> {
             alphabet: match v["alphabet"].as_str().unwrap_or("full") {
                 "reduced" => Alphabet::Reduced,
                 "minimal" => Alphabet::Minimal,
+                "recovery" => Alphabet::Recovery,
                 _ => Alphabet::Full,
             },
         })
@@ -375,10 +444,23 @@ impl<K: Kind> Sys for CcSys<K> {
             }
             COp::Spurious { dt } => json!(["on_spurious_congestion_event", DT_MS[dt as usize]]),
             COp::Mtu { dt, mtu } => json!(["on_mtu_update", DT_MS[dt as usize], mtu]),
+            COp::SentSmall => json!(["on_sent_300", 0]),
+            COp::AckSmall { in_flight } => json!(["on_ack_300+on_end_acks", 100, in_flight]),
+            COp::CongBurst => json!(["on_congestion_event_burst", 100, 11_000]),
         }
     }
     fn op_parse(v: &Value) -> Option<COp> {
         let a = v.as_array()?;
+        match a.first()?.as_str()? {
+            "on_sent_300" => return Some(COp::SentSmall),
+            "on_ack_300+on_end_acks" => {
+                return Some(COp::AckSmall {
+                    in_flight: a.get(2)?.as_u64()? as u16,
+                })
+            }
+            "on_congestion_event_burst" => return Some(COp::CongBurst),
+            _ => {}
+        }
         let dt = DT_MS
             .iter()
             .position(|&d| Some(d) == a.get(1).and_then(|x| x.as_u64()))? as u8;
